@@ -18,6 +18,7 @@ STUBS = [
     "np.zeros/ones/empty/full/array/asarray/linspace/zeros_like/ones_like/arange -> object arrays when dtype is float/unspecified",
     "np.isscalar/isclose/allclose/abs/amax/amin/max/min/maximum/minimum/sqrt/exp/cos/sin/floor/ceil/log2/sign/where/argmax/argsort/sort/isinf/isnan/float64 -> proxy-aware versions with identical semantics on reals",
     "math.isclose/isinf/sqrt/exp/cos/sin/floor/ceil/log2/pow/fabs -> proxy-aware versions (transcendentals uninterpreted: congruence only)",
+    "numpy.linalg.norm (ord inf/1/2) -> proxy-aware version (2-norm of a vector through sqrt as a fresh non-negative root)",
     "print, logging output of the library -> silenced",
     "scipy.interpolate.interpn -> reference multilinear interpolant over object arrays (validated against scipy at each run)",
 ]
@@ -477,6 +478,45 @@ def ref_interpn(points, values, xi, method='linear', bounds_error=True, fill_val
     return out
 
 
+class LAFacade(types.ModuleType):
+    """numpy.linalg as seen by the library: norm() on proxies for ord in {inf, 1, 2}; solve/lstsq are stubbed per harness."""
+
+    def __init__(self):
+        super().__init__('linalg_facade')
+
+    def __getattr__(self, name):
+        return getattr(_np.linalg, name)
+
+    @staticmethod
+    def norm(x, ord=None, axis=None, **kw):
+        if not _has_sym(x):
+            return _np.linalg.norm(_tofloat(_np.asarray(x)) if isinstance(x, _np.ndarray) or isinstance(x, (list, tuple)) else x, ord, axis, **kw)
+        if axis is not None:
+            raise Unsupported('norm with axis on symbolic data')
+        v = [e for e in _np.asarray(x, dtype=object).flat]
+        if ord == _np.inf:
+            r = abs(v[0])
+            for e in v[1:]:
+                r = core.sym_max(r, abs(e))
+            return r
+        if ord == 1:
+            r = 0
+            for e in v:
+                r = r + abs(e)
+            return r
+        if ord is None or ord == 2:
+            if len(v) == 1:
+                return abs(v[0])
+            tot = 0
+            for e in v:
+                tot = tot + e * e
+            return core.sym_sqrt(tot)
+        raise Unsupported('norm ord=%r' % (ord,))
+
+
+_LA = LAFacade()
+
+
 def _silent(*a, **k):
     return None
 
@@ -497,6 +537,7 @@ def _replacements():
         ('log2', _math.log2, _m_log2),
         ('copysign', _math.copysign, _m_copysign),
         ('interpn', scipy.interpolate.interpn, ref_interpn),
+        ('LA', _np.linalg, _LA),
     ]
 
 
